@@ -14,7 +14,7 @@ pub fn spec() -> PropSpec {
     PropSpec {
         id: "C02",
         level: "exploration",
-        rule: "generated text lines: hex-digit strings of every count 0..64 (each count visited by a deterministic sweep), well-formed frames of all 32 DF values at the right and at the wrong length, with/without a 12-digit timestamp prefix, truncated/extended by 1..3 digits, parity-valid and parity-invalid squitters; decorated with characters that are not hex digits (a hand-picked list - ASCII punctuation incl. * @ ; : , blanks, tab, CR, g-z, G-Z, non-ASCII letters and digits - or any character U+0000..U+00FF; every character U+0000..U+024F and the fullwidth forms once in a deterministic sweep of six placements) at generated positions and with generated letter case. Oracle: reference acceptance predicate (digit count, DF/length agreement, C04 parity); a line that is not a frame must leave the table (all fields) untouched; a frame of one of the nine formats with non-zero address must create the row of its address; the table after the decorated line equals the table after the bare digits (wall-clock stamps excluded) and get_message agrees on both. Non-trivial = line with decoration, an off-by-one digit count, or a DF/length mismatch; distinct by hash of the line",
+        rule: "generated text lines: hex-digit strings of every count 0..64 (each count visited by a deterministic sweep), well-formed frames of all 32 DF values at the right and at the wrong length, with/without a 12-digit timestamp prefix, truncated/extended by 1..3 digits, parity-valid and parity-invalid squitters; decorated with characters that are not hex digits (a hand-picked list - ASCII punctuation incl. * @ ; : , blanks, tab, CR, g-z, G-Z, non-ASCII letters and digits - or any character U+0000..U+00FF; every character U+0000..U+024F, the fullwidth forms, the Latin ligatures and the hand-picked list once in a deterministic sweep of six placements) at generated positions and with generated letter case. Oracle: reference acceptance predicate (digit count, DF/length agreement, C04 parity); a line that is not a frame must leave the table (all fields) untouched; a frame of one of the nine formats with non-zero address must create the row of its address; the table after the decorated line equals the table after the bare digits (wall-clock stamps excluded) and get_message agrees on both. Non-trivial = line with decoration, an off-by-one digit count, or a DF/length mismatch; distinct by hash of the line",
         assumptions: &["'hexadecimal digit' = ASCII 0-9 a-f A-F (char::to_digit(16)); every other character, including non-ASCII digits, is decoration", "no line feed inside a line"],
         workers: 16,
         also_nochk: false,
@@ -76,7 +76,7 @@ fn hexstr(n: usize) -> impl Strategy<Value = String> {
 /// a well-formed frame with any of the 32 DF values (right length for its DF), parity sealed for squitters
 fn frame_any_df() -> BoxedStrategy<Frame> {
     prop_oneof![
-        6 => alphabet::frame_any(FRESH),
+        6 => prop_oneof![6 => Just(FRESH), 1 => Just(0xFF_FFFFu32), 1 => Just(0x00_0001u32), 1 => Just(0x80_0000u32)].prop_flat_map(alphabet::frame_any),
         3 => (0u32..32, gen::fill128()).prop_map(|(df, fill)| {
             let len = if df < 16 { 56 } else { 112 };
             let mut f = Frame::new(len);
@@ -127,7 +127,7 @@ fn case_strategy() -> impl Strategy<Value = LineCase> {
         8 => Just(None),
         1 => (proptest::sample::select(vec![' ', '\r', '\t', '-', ';']), prop_oneof![200usize..300, 480usize..540, 1000usize..1050, 65_480usize..65_560], 0usize..=64).prop_map(Some),
     ];
-    (digits_strategy(), proptest::collection::vec((0usize..=64, gen::deco_char()), 0..8), proptest::collection::vec(any::<bool>(), 64), pad).prop_map(|((digits, class), mut deco, lower, pad)| {
+    (digits_strategy(), proptest::collection::vec((0usize..=64, prop_oneof![3 => proptest::sample::select(DECO.to_vec()), 1 => gen::deco_char()]), 0..8), proptest::collection::vec(any::<bool>(), 64), pad).prop_map(|((digits, class), mut deco, lower, pad)| {
         if let Some((ch, n, at)) = pad {
             deco.extend(std::iter::repeat((at, ch)).take(n));
         }
@@ -262,7 +262,7 @@ fn run(c: &mut Ctx) {
     // (must not complete them), inside a 29-digit string (must not be skipped together with a digit)
     let frame28 = bits::es(17, 5, 0x4840D6, bits::me_ident(4, 3, [5, 9, 14, 49, 50, 51, 32, 32])).hex();
     let frame14 = bits::df11(0xA12345, 5, 0).hex();
-    let chars: Vec<char> = (0u32..0x250).chain(0xFF10..0xFF5B).filter_map(char::from_u32).filter(|ch| !ch.is_ascii_hexdigit() && *ch != '\n').collect();
+    let chars: Vec<char> = (0u32..0x250).chain(0xFF10..0xFF5B).chain(0xFB00..0xFB07).chain(0x1E96..0x1E9C).filter_map(char::from_u32).chain(DECO.iter().cloned()).filter(|ch| !ch.is_ascii_hexdigit() && *ch != '\n').collect();
     for (ci, ch) in chars.iter().enumerate() {
         if !c.mine(ci as u64) {
             continue;
